@@ -813,6 +813,17 @@ def _g_process_python_str(rng):
     return [C09._lit_token(rng)]
 
 
+def _g_license(rng):
+    from gen import licenses as GL
+    r = rng.random()
+    if r < 0.12:
+        return [GL.arbitrary(rng)]
+    toks = GL.expr(rng)
+    if r < 0.45:
+        toks = GL.damage(rng, toks)[1]
+    return [GL.spell(rng, toks, recase=rng.random() < 0.7)]
+
+
 # lean name -> (module, attribute path, argument generator)
 FUNCS = {
     "_parse_letter_version": ("packaging.version", "_parse_letter_version", _g_parse_letter_version),
@@ -882,6 +893,7 @@ FUNCS.update({
     "process_env_var": ("packaging._parser", "process_env_var", _g_process_env_var),
     "process_python_str": ("packaging._parser", "process_python_str", _g_process_python_str),
 })
+FUNCS["canonicalize_license_expression"] = ("packaging.licenses", "canonicalize_license_expression", _g_license)
 # functions over a shared tokenizer: the answer is the result together with the tokenizer afterwards
 STATE_FUNCS = set(PARSER_FUNCS)
 # functions whose first wire argument is the oracle table (the real function runs against the real callees)
